@@ -26,7 +26,8 @@ RULE = ('A valid model (chains with worm / helical matings, optional data, duty-
         '(stop instant); time axis and every recorded series (positions .. stresses, currents, duty cycle) equal in SI '
         'within 1e-7 relative of the series scale. Cases whose discrete decisions (timer windows vs grid, stop '
         'comparison, lock decisions, rule window) lie within 1e-6 of their threshold are counted and only compared '
-        'for outcome class. constructors: every component constructor argument (incl. the four worm pressure angles '
+        'for outcome class. ties: timer windows ending EXACTLY on a simulated instant (decimal step, window of 2^j steps), '
+        'compared without the near-threshold discard. constructors: every component constructor argument (incl. the four worm pressure angles '
         'and helix angles near their limits) in every unit: accept / reject must not depend on the unit. '
         'Non-trivial = at least 5 input quantities changed unit, including dt or T and at least one angle; distinct = '
         'canonical JSON.')
@@ -181,7 +182,7 @@ def check(case) -> Result:
     if not (I.complete(a) and I.finite_trace(a) and I.complete(b) and I.finite_trace(b)):
         res.classes += ('incomplete-or-nonfinite-trace',)
         return res
-    m = _margins(base, mdl, a)
+    m = 1.0 if case.get('exact_ties') else _margins(base, mdl, a)
     if m < 1e-6:
         res.classes += ('near-threshold-discarded',)
         return res
@@ -318,9 +319,41 @@ def s_case(draw, max_len=5, max_steps=30):
     return case
 
 
+@st.composite
+def s_tie_case(draw):
+    """timer windows that end EXACTLY on a simulated instant, in every unit: dt = m * 10^-e, window [0, 2^j dt] (the
+    float of the decimal literal of 2^j dt is exactly 2^j times the float of dt, and correctly rounded unit conversions
+    commute with the power of two), so the inclusive end is decidable and must not depend on the units"""
+    from fractions import Fraction as Fr
+    case = {'motor': draw(G.s_motor()), 'chain': draw(G.s_chain(max_len=3, worm='no', requal=False))}
+    mdl = M.Model(case)
+    case['load'] = G.s_load(draw, mdl, kinds=('const', 'speed'))
+    case['init'] = G.s_init(draw, mdl, at_rest=True)
+    # decimal step close to 0.1 / k
+    target = 0.1 / mdl.k
+    e = draw(st.integers(1, 3))
+    import math
+    p10 = math.floor(math.log10(target))
+    m = draw(st.integers(1, 999))
+    u = draw(G.s_unit('TimeInterval'))
+    dt_sec = Fr(m) * Fr(10) ** (p10 - 2)
+    j = draw(st.integers(1, 3))
+    n = 2 ** (j + 1)
+    fu = U.factor('TimeInterval', u)
+    dt = [float(dt_sec / fu), u]
+    case['history'] = [{'op': 'run', 'dt': dt, 'T': [float(dt_sec * n / fu), u], 'control': True}]
+    case['control'] = [{'rule': 'constant', 'start': [0, u], 'duration': [float(dt_sec * 2 ** j / fu), u],
+                        'value': G._duty(draw(st.floats(-1, 1)))}]
+    case['exact_ties'] = True
+    case['reunits'] = draw(st.lists(st.integers(0, 16), min_size=60, max_size=60))
+    return case
+
+
 def parts(tier):
     if tier == 'quick':
         return [Part('models', check, strategy=s_case(), examples=150, shards=4),
+                Part('ties', check, strategy=s_tie_case(), examples=80, shards=2),
                 Part('constructors', check_ctor, strategy=s_ctor(), examples=250, shards=2)]
-    return [Part('models', check, strategy=s_case(8, 100), examples=1500, shards=14),
+    return [Part('models', check, strategy=s_case(8, 100), examples=1500, shards=12),
+            Part('ties', check, strategy=s_tie_case(), examples=1500, shards=2),
             Part('constructors', check_ctor, strategy=s_ctor(), examples=10000, shards=2)]
